@@ -1,5 +1,929 @@
-//! Translator targets owned by property C19.
+//! Translator targets owned by property C19 — `Generated/TestRunner.lean`.
+//!
+//! From the working tree:
+//!  * src/codegen/testing.rs: `TestCase::run` (whole function), `get_tests`
+//!    (filter predicate, key pipeline, sort, display name / look-up key),
+//!    `run_tests` (counter state, loop source, loop body, final decision);
+//!  * src/pipeline.rs: `Package<NoCtx>::run_tests`;
+//!  * src/cli.rs: `enum Command`, every arm of `cli_inner`, `cli`;
+//!  * src/typechecker/function.rs `test` and src/mir/lower.rs `test`: the
+//!    `format!("test#…")` name and the signature a test gets.
+//!
+//! Conventions on top of `r2l` (all local to this file):
+//!  * `print!/println!/eprintln!` only write to the terminal: removed; a `let`
+//!    whose variable is afterwards unused and whose initialiser only calls
+//!    `len/to_string/name` is display-only and removed with them;
+//!  * an un-annotated `let mut c = <int>` that is only `+=`-ed, compared and
+//!    printed is an `i32` (Rust's integer fallback); the counters become the
+//!    fields of a state record threaded through the loop;
+//!  * `for PAT in ITER { BODY }` ↦ `List.foldlM` of the translated body over
+//!    the translated iterator chain (`into_iter/enumerate/skip/take/rev`);
+//!  * `e?` ↦ `(← try_ e)`, `return Err(x)` ↦ `throw x` (in the CLI monad);
+//!  * string literals ↦ lists of characters; `rsplit_once("<c>")` ↦
+//!    `rsplit_once_char _ '<c>'`;
+//!  * `get_function::<T>(n)` ↦ `get_function sigOf(T) n`.
+//! Anything else is an extraction failure.
+
 #[allow(unused_imports)]
 use super::{Gen, Target};
+use crate::find;
+use crate::r2l::{Cx, Meth};
+use proc_macro2::{TokenStream, TokenTree};
+use quote::ToTokens;
+use std::path::Path;
+use syn::visit::Visit;
+use syn::visit_mut::VisitMut;
+use syn::{Expr, Pat, Stmt};
 
-pub const TARGETS: &[Target] = &[];
+pub const TARGETS: &[Target] = &[("testrunner", "TestRunner", testrunner as Gen)];
+
+type R = Result<String, String>;
+
+const PRINTS: [&str; 4] = ["print", "println", "eprint", "eprintln"];
+
+fn mac_name(m: &syn::Macro) -> String {
+    m.path
+        .segments
+        .last()
+        .map(|s| s.ident.to_string())
+        .unwrap_or_default()
+}
+
+fn is_print_stmt(s: &Stmt) -> bool {
+    match s {
+        Stmt::Macro(m) => PRINTS.contains(&mac_name(&m.mac).as_str()),
+        Stmt::Expr(Expr::Macro(m), _) => PRINTS.contains(&mac_name(&m.mac).as_str()),
+        _ => false,
+    }
+}
+
+/// Remove terminal output and type ascriptions on `let`.
+struct Clean;
+impl VisitMut for Clean {
+    fn visit_block_mut(&mut self, b: &mut syn::Block) {
+        b.stmts.retain(|s| !is_print_stmt(s));
+        for s in b.stmts.iter_mut() {
+            if let Stmt::Local(l) = s {
+                if let Pat::Type(pt) = &l.pat {
+                    l.pat = (*pt.pat).clone();
+                }
+            }
+        }
+        syn::visit_mut::visit_block_mut(self, b);
+    }
+}
+
+struct PathUses<'a>(&'a str, usize);
+impl<'ast> Visit<'ast> for PathUses<'_> {
+    fn visit_expr_path(&mut self, p: &'ast syn::ExprPath) {
+        if p.path.is_ident(self.0) {
+            self.1 += 1;
+        }
+    }
+    fn visit_macro(&mut self, m: &'ast syn::Macro) {
+        // identifiers inside remaining macros count as uses
+        fn walk(ts: TokenStream, name: &str, n: &mut usize) {
+            for t in ts {
+                match t {
+                    TokenTree::Ident(i) if i == name => *n += 1,
+                    TokenTree::Group(g) => walk(g.stream(), name, n),
+                    TokenTree::Literal(l) if l.to_string().contains(name) => *n += 1,
+                    _ => {}
+                }
+            }
+        }
+        walk(m.tokens.clone(), self.0, &mut self.1);
+    }
+}
+
+struct OnlyPureMethods(bool);
+impl<'ast> Visit<'ast> for OnlyPureMethods {
+    fn visit_expr_method_call(&mut self, m: &'ast syn::ExprMethodCall) {
+        if !["len", "to_string", "name"].contains(&m.method.to_string().as_str()) {
+            self.0 = false;
+        }
+        syn::visit::visit_expr_method_call(self, m);
+    }
+    fn visit_expr_call(&mut self, _c: &'ast syn::ExprCall) {
+        self.0 = false;
+    }
+    fn visit_expr_try(&mut self, _c: &'ast syn::ExprTry) {
+        self.0 = false;
+    }
+    fn visit_expr_macro(&mut self, _c: &'ast syn::ExprMacro) {
+        self.0 = false;
+    }
+}
+
+/// Drop display-only `let`s (see the module comment), to a fixpoint.
+fn drop_display_lets(stmts: &mut Vec<Stmt>) {
+    loop {
+        let mut victim = None;
+        for (i, s) in stmts.iter().enumerate() {
+            let Stmt::Local(l) = s else { continue };
+            let Pat::Ident(pi) = &l.pat else { continue };
+            if pi.mutability.is_some() {
+                continue;
+            }
+            let Some(init) = &l.init else { continue };
+            if init.diverge.is_some() {
+                continue;
+            }
+            let mut pure_ = OnlyPureMethods(true);
+            pure_.visit_expr(&init.expr);
+            if !pure_.0 {
+                continue;
+            }
+            let name = pi.ident.to_string();
+            let mut u = PathUses(&name, 0);
+            for later in &stmts[i + 1..] {
+                u.visit_stmt(later);
+            }
+            if u.1 == 0 {
+                victim = Some(i);
+                break;
+            }
+        }
+        match victim {
+            Some(i) => {
+                stmts.remove(i);
+            }
+            None => break,
+        }
+    }
+    for s in stmts.iter_mut() {
+        if let Stmt::Expr(Expr::ForLoop(f), _) = s {
+            drop_display_lets(&mut f.body.stmts);
+        }
+    }
+}
+
+/// String literals ↦ arrays of chars; `rsplit_once("c")` ↦ `rsplit_once_char('c')`;
+/// `get_function::<T>(n)` ↦ `get_function(sig, n)`; `e?` ↦ `try_(e)`;
+/// `return Err(x)` ↦ `throw_(x)`; `RotoReport { errors: vec![RotoError::X(..)], .. }` ↦ `CliErr::X`.
+struct Rewrite {
+    errs: Vec<String>,
+}
+impl VisitMut for Rewrite {
+    fn visit_expr_mut(&mut self, e: &mut Expr) {
+        // outer rewrites that must see the original children
+        if let Expr::Struct(s) = e {
+            if s.path.segments.last().is_some_and(|x| x.ident == "RotoReport") {
+                fn walk(ts: TokenStream, out: &mut Vec<String>) {
+                    let v: Vec<TokenTree> = ts.into_iter().collect();
+                    for (i, t) in v.iter().enumerate() {
+                        match t {
+                            TokenTree::Group(g) => walk(g.stream(), out),
+                            TokenTree::Ident(id) if id == "RotoError" => {
+                                if let Some(TokenTree::Ident(x)) = v.get(i + 3) {
+                                    out.push(x.to_string());
+                                }
+                            }
+                            _ => {}
+                        }
+                    }
+                }
+                let mut found = vec![];
+                walk(s.to_token_stream(), &mut found);
+                if found.len() == 1 {
+                    *e = syn::parse_str(&format!("CliErr::{}", found[0])).unwrap();
+                } else {
+                    self.errs.push(format!(
+                        "RotoReport literal with {} RotoError constructors",
+                        found.len()
+                    ));
+                }
+                return;
+            }
+        }
+        if let Expr::MethodCall(mc) = e {
+            if mc.method == "rsplit_once" {
+                let one = match mc.args.first() {
+                    Some(Expr::Lit(syn::ExprLit { lit: syn::Lit::Str(s), .. }))
+                        if mc.args.len() == 1 && s.value().chars().count() == 1 =>
+                    {
+                        Some(s.value().chars().next().unwrap())
+                    }
+                    _ => None,
+                };
+                match one {
+                    Some(c) => {
+                        mc.method = syn::Ident::new("rsplit_once_char", mc.method.span());
+                        mc.args = std::iter::once::<Expr>(
+                            syn::parse_str(&format!("{c:?}")).unwrap(),
+                        )
+                        .collect();
+                    }
+                    None => self
+                        .errs
+                        .push("rsplit_once with a pattern that is not a one-character literal".into()),
+                }
+            }
+            if let Some(tf) = &mc.turbofish {
+                let t = tf.args.to_token_stream().to_string().replace(' ', "");
+                let sig = match t.as_str() {
+                    "fn()->Verdict<(),()>" => Some("testSig"),
+                    "fn()" => Some("entrySig"),
+                    _ => None,
+                };
+                match sig {
+                    Some(sg) if mc.method == "get_function" => {
+                        let old: Vec<Expr> = mc.args.iter().cloned().collect();
+                        let mut args: Vec<Expr> = vec![syn::parse_str(sg).unwrap()];
+                        args.extend(old);
+                        mc.args = args.into_iter().collect();
+                        mc.turbofish = None;
+                    }
+                    _ => self.errs.push(format!(
+                        "unsupported turbofish: {}::<{t}>",
+                        mc.method
+                    )),
+                }
+            }
+        }
+        syn::visit_mut::visit_expr_mut(self, e);
+        match e {
+            Expr::Lit(syn::ExprLit { lit: syn::Lit::Str(s), .. }) => {
+                let cs: Vec<String> = s.value().chars().map(|c| format!("{c:?}")).collect();
+                // `[]` alone would be an untyped empty list; name it
+                let txt = if cs.is_empty() {
+                    "empty_str".to_string()
+                } else {
+                    format!("[{}]", cs.join(", "))
+                };
+                *e = syn::parse_str(&txt).unwrap();
+            }
+            Expr::Try(t) => {
+                let inner = t.expr.to_token_stream();
+                *e = syn::parse_str(&format!("try_({inner})")).unwrap();
+            }
+            Expr::Return(r) => {
+                if let Some(x) = &r.expr {
+                    if let Expr::Call(c) = &**x {
+                        if c.func.to_token_stream().to_string() == "Err" && c.args.len() == 1 {
+                            let a = c.args[0].to_token_stream();
+                            *e = syn::parse_str(&format!("throw_({a})")).unwrap();
+                        }
+                    }
+                }
+            }
+            _ => {}
+        }
+    }
+}
+
+fn rewrite(block: &mut syn::Block) -> Result<(), String> {
+    Clean.visit_block_mut(block);
+    let mut rw = Rewrite { errs: vec![] };
+    rw.visit_block_mut(block);
+    if rw.errs.is_empty() {
+        Ok(())
+    } else {
+        Err(rw.errs.join("; "))
+    }
+}
+
+fn base_cx() -> Cx {
+    let mut cx = Cx::default();
+    for (r, l) in [
+        ("Ok", "RResult.Ok"),
+        ("Err", "RResult.Err"),
+        ("Result::Ok", "RResult.Ok"),
+        ("Result::Err", "RResult.Err"),
+        ("Clone::clone", "id"),
+        ("NoCtx", "()"),
+        ("empty_str", "([] : Name)"),
+    ] {
+        cx.paths.insert(r.into(), l.into());
+    }
+    for (m, f) in [
+        ("into_iter", "RIter.into_iter"),
+        ("enumerate", "RIter.enumerate"),
+        ("skip", "RIter.skip"),
+        ("take", "RIter.take"),
+        ("rev", "RIter.rev"),
+        ("filter", "RIter.filter"),
+        ("map", "RIter.map"),
+        ("collect", "RIter.collect"),
+        ("keys", "Table.keys"),
+        ("rsplit_once_char", "RStr.rsplit_once_char"),
+        ("map_or", "ROpt_map_or"),
+        ("starts_with", "RStr.starts_with"),
+        ("replace", "RStr.replace"),
+        ("strip_prefix", "RStr.strip_prefix"),
+        ("get_function", "Module.get_function"),
+        ("map_err", "RResult_map_err"),
+    ] {
+        cx.methods.insert(m.into(), Meth::Pure(f.into()));
+    }
+    cx.methods.insert("iter".into(), Meth::Pure("RIter.into_iter".into()));
+    cx.methods.insert("get_context".into(), Meth::Identity);
+    cx.methods
+        .insert("unwrap".into(), Meth::Fallible("RUnwrap.unwrap".into()));
+    cx.methods
+        .insert("call_tuple".into(), Meth::Fallible("TypedFunc.call_tuple".into()));
+    cx.methods
+        .insert("run".into(), Meth::FallibleDbg("TestCase_run".into()));
+    cx.fallible_fns
+        .insert("get_tests".into(), ("get_tests".into(), true));
+    cx.fallible_fns
+        .insert("run_tests".into(), ("run_tests".into(), true));
+    cx
+}
+
+// ------------------------------------------------------------ TestCase::run
+
+fn testcase_run(testing: &syn::File) -> R {
+    let mut f = find::func(testing, "run", Some("TestCase"))?;
+    rewrite(&mut f.block)?;
+    let cx = base_cx();
+    let body = cx.block(&f.block.stmts)?;
+    Ok(format!(
+        "/-- `TestCase::run` (src/codegen/testing.rs) -/\ndef TestCase_run {{ε : Type}} (dbg : Bool) (self : TestCase) (ctx : Unit) : Run ε (RResult Unit Unit) :=\n {body}\n\n"
+    ))
+}
+
+// ---------------------------------------------------------------- get_tests
+
+fn get_tests(testing: &syn::File) -> R {
+    let mut f = find::func(testing, "get_tests", None)?;
+    rewrite(&mut f.block)?;
+    let mut out = String::new();
+    let mut cx = base_cx();
+
+    // the `.filter(|x| …)` closure becomes a named predicate
+    struct FilterFinder(Vec<syn::ExprClosure>);
+    impl VisitMut for FilterFinder {
+        fn visit_expr_method_call_mut(&mut self, mc: &mut syn::ExprMethodCall) {
+            syn::visit_mut::visit_expr_method_call_mut(self, mc);
+            if mc.method == "filter" && mc.args.len() == 1 {
+                if let Expr::Closure(c) = &mc.args[0] {
+                    self.0.push(c.clone());
+                    mc.args = std::iter::once::<Expr>(
+                        syn::parse_str("get_tests_filter").unwrap(),
+                    )
+                    .collect();
+                }
+            }
+        }
+    }
+    let mut ff = FilterFinder(vec![]);
+    ff.visit_block_mut(&mut f.block);
+    if ff.0.len() != 1 {
+        return Err(format!(
+            "get_tests: expected exactly one `.filter(|x| …)`, found {}",
+            ff.0.len()
+        ));
+    }
+    let clo = &ff.0[0];
+    let param = match clo.inputs.first() {
+        Some(Pat::Ident(p)) if clo.inputs.len() == 1 => p.ident.to_string(),
+        _ => return Err("get_tests: filter closure must take one plain parameter".into()),
+    };
+    let mut body: &Expr = &clo.body;
+    while let Expr::Block(b) = body {
+        match b.block.stmts.as_slice() {
+            [Stmt::Expr(e, None)] => body = e,
+            _ => break,
+        }
+    }
+    let pred = cx.v(body)?;
+    if pred.contains("(←") {
+        return Err("get_tests: filter predicate is not pure".into());
+    }
+    out.push_str(&format!(
+        "/-- the `.filter(|{param}| …)` predicate of `get_tests` on a key of `Module.functions` -/\ndef get_tests_filter ({param} : Name) : Bool :=\n {pred}\n\n"
+    ));
+
+    // statements: `let mut tests = CHAIN;` `tests.sort();` tail `.map(|name| …)`
+    let stmts = &f.block.stmts;
+    let mut lines = vec![];
+    let mut tail = None;
+    for (i, s) in stmts.iter().enumerate() {
+        match s {
+            Stmt::Local(l) => {
+                let Pat::Ident(pi) = &l.pat else {
+                    return Err("get_tests: unsupported let pattern".into());
+                };
+                let init = l.init.as_ref().ok_or("get_tests: let without init")?;
+                let v = cx.v(&init.expr)?;
+                lines.push(format!(" let {} := {v}", pi.ident));
+            }
+            Stmt::Expr(Expr::MethodCall(mc), Some(_))
+                if mc.method == "sort" && mc.args.is_empty() =>
+            {
+                let Expr::Path(p) = &*mc.receiver else {
+                    return Err("get_tests: sort on a non-variable".into());
+                };
+                let x = p.path.to_token_stream().to_string();
+                lines.push(format!(" let {x} := (RStr.sort {x})"));
+            }
+            Stmt::Expr(e, None) if i + 1 == stmts.len() => tail = Some(e.clone()),
+            other => {
+                return Err(format!(
+                    "get_tests: unsupported statement: {}",
+                    other.to_token_stream()
+                ));
+            }
+        }
+    }
+    let tail = tail.ok_or("get_tests: no tail expression")?;
+    let Expr::MethodCall(mc) = &tail else {
+        return Err("get_tests: tail is not a method call".into());
+    };
+    if mc.method != "map" || mc.args.len() != 1 {
+        return Err("get_tests: tail is not `.map(|name| …)`".into());
+    }
+    let Expr::Closure(c) = &mc.args[0] else {
+        return Err("get_tests: tail map takes no closure".into());
+    };
+    let p = match c.inputs.first() {
+        Some(Pat::Ident(p)) if c.inputs.len() == 1 => p.ident.to_string(),
+        _ => return Err("get_tests: map closure must take one plain parameter".into()),
+    };
+    let mut cbody: &Expr = &c.body;
+    while let Expr::Block(b) = cbody {
+        match b.block.stmts.as_slice() {
+            [Stmt::Expr(e, None)] => cbody = e,
+            _ => break,
+        }
+    }
+    cx.paths.insert("TestCase::new".into(), "TestCase.new".into());
+    let b = cx.v(cbody)?;
+    let recv = cx.v(&mc.receiver)?;
+    out.push_str(&format!(
+        "/-- one element of the iterator `get_tests` returns -/\ndef get_tests_case (dbg : Bool) (module : Module) ({p} : Name) : Res TestCase :=\n (do pure {b})\n\n"
+    ));
+    out.push_str(&format!(
+        "/-- `get_tests` (src/codegen/testing.rs); the lazy iterator is forced (its only consumer is `.collect()`) -/\ndef get_tests (dbg : Bool) (module : Module) : Res (List TestCase) := (do\n{}\n List.mapM (get_tests_case dbg module) {recv})\n\n",
+        lines.join("\n")
+    ));
+    // the keys before the final map, for `discovery_exact`
+    out.push_str(&format!(
+        "/-- the sorted key list `get_tests` maps over -/\ndef get_tests_keys (module : Module) : List Name := Id.run (do\n{}\n pure {recv})\n\n",
+        lines.join("\n")
+    ));
+    Ok(out)
+}
+
+// ---------------------------------------------------------------- run_tests
+
+/// counters ↦ fields of `st__`; integer literals next to them ↦ `i32lit(k)`
+struct Counters<'a>(&'a [String]);
+impl Counters<'_> {
+    fn is_counter_field(&self, e: &Expr) -> Option<String> {
+        if let Expr::Field(f) = e {
+            if f.base.to_token_stream().to_string() == "st__" {
+                return Some(f.member.to_token_stream().to_string());
+            }
+        }
+        None
+    }
+}
+impl VisitMut for Counters<'_> {
+    fn visit_expr_mut(&mut self, e: &mut Expr) {
+        if let Expr::Path(p) = e {
+            for c in self.0 {
+                if p.path.is_ident(c) {
+                    *e = syn::parse_str(&format!("st__.{c}")).unwrap();
+                    return;
+                }
+            }
+        }
+        syn::visit_mut::visit_expr_mut(self, e);
+        if let Expr::Binary(b) = e {
+            let l = self.is_counter_field(&b.left).is_some();
+            let r = self.is_counter_field(&b.right).is_some();
+            for (is_c, other) in [(l, &mut b.right), (r, &mut b.left)] {
+                if is_c {
+                    if let Expr::Lit(syn::ExprLit { lit: syn::Lit::Int(i), .. }) = &**other {
+                        if i.suffix().is_empty() {
+                            **other =
+                                syn::parse_str(&format!("i32lit({})", i.base10_digits())).unwrap();
+                        }
+                    }
+                }
+            }
+        }
+    }
+}
+
+fn state_stmts(cx: &Cx, stmts: &[Stmt], counters: &[String]) -> R {
+    let Some((first, rest)) = stmts.split_first() else {
+        return Ok("(pure st__)".into());
+    };
+    let rest_s = state_stmts(cx, rest, counters)?;
+    Ok(match first {
+        Stmt::Local(l) => {
+            let Pat::Ident(pi) = &l.pat else {
+                return Err("loop body: unsupported let pattern".into());
+            };
+            let init = l.init.as_ref().ok_or("loop body: let without init")?;
+            if init.diverge.is_some() {
+                return Err("loop body: let-else".into());
+            }
+            format!("(do\n let {} := {}\n {rest_s})", pi.ident, cx.v(&init.expr)?)
+        }
+        Stmt::Expr(Expr::Binary(b), _) if matches!(b.op, syn::BinOp::AddAssign(_)) => {
+            let Expr::Field(f) = &*b.left else {
+                return Err(format!(
+                    "loop body: `+=` on something that is not a counter: {}",
+                    b.left.to_token_stream()
+                ));
+            };
+            let c = f.member.to_token_stream().to_string();
+            if f.base.to_token_stream().to_string() != "st__" || !counters.contains(&c) {
+                return Err("loop body: `+=` on a non-counter".into());
+            }
+            let rhs = cx.v(&b.right)?;
+            format!(
+                "(do\n let st__ := {{ st__ with {c} := (← RArith.add dbg st__.{c} {rhs}) }}\n {rest_s})"
+            )
+        }
+        Stmt::Expr(Expr::If(i), _) if !matches!(*i.cond, Expr::Let(_)) => {
+            let c = cx.v(&i.cond)?;
+            let then = state_stmts(cx, &i.then_branch.stmts, counters)?;
+            let els = match &i.else_branch {
+                None => "(pure st__)".to_string(),
+                Some((_, e)) => match &**e {
+                    Expr::Block(b) => state_stmts(cx, &b.block.stmts, counters)?,
+                    other @ Expr::If(_) => {
+                        state_stmts(cx, &[Stmt::Expr(other.clone(), None)], counters)?
+                    }
+                    _ => return Err("loop body: unsupported else".into()),
+                },
+            };
+            format!("(do\n let st__ ← (do\n if {c} then {then}\n else {els})\n {rest_s})")
+        }
+        other => {
+            return Err(format!(
+                "loop body: unsupported statement: {}",
+                other.to_token_stream()
+            ));
+        }
+    })
+}
+
+fn run_tests(testing: &syn::File) -> R {
+    let mut f = find::func(testing, "run_tests", None)?;
+    rewrite(&mut f.block)?;
+    drop_display_lets(&mut f.block.stmts);
+    let cx = base_cx();
+
+    let mut counters: Vec<(String, String)> = vec![];
+    let mut pre = vec![];
+    let mut the_loop = None;
+    let mut tail = None;
+    let n = f.block.stmts.len();
+    for (i, s) in f.block.stmts.iter().enumerate() {
+        match s {
+            Stmt::Local(l) => {
+                let Pat::Ident(pi) = &l.pat else {
+                    return Err("run_tests: unsupported let pattern".into());
+                };
+                let init = l.init.as_ref().ok_or("run_tests: let without init")?;
+                match &*init.expr {
+                    Expr::Lit(syn::ExprLit { lit: syn::Lit::Int(k), .. })
+                        if pi.mutability.is_some() && k.suffix().is_empty() =>
+                    {
+                        if the_loop.is_some() {
+                            return Err("run_tests: counter declared after the loop".into());
+                        }
+                        counters.push((pi.ident.to_string(), k.base10_digits().to_string()));
+                    }
+                    e => {
+                        if pi.mutability.is_some() || the_loop.is_some() {
+                            return Err(format!(
+                                "run_tests: unsupported let: {}",
+                                s.to_token_stream()
+                            ));
+                        }
+                        pre.push(format!(" let {} := {}", pi.ident, cx.v(e)?));
+                    }
+                }
+            }
+            Stmt::Expr(Expr::ForLoop(fl), _) => {
+                if the_loop.is_some() {
+                    return Err("run_tests: more than one loop".into());
+                }
+                the_loop = Some(fl.clone());
+            }
+            Stmt::Expr(e, None) if i + 1 == n => tail = Some(e.clone()),
+            other => {
+                return Err(format!(
+                    "run_tests: unsupported statement: {}",
+                    other.to_token_stream()
+                ));
+            }
+        }
+    }
+    let mut fl = the_loop.ok_or("run_tests: no `for` loop")?;
+    let mut tail = tail.ok_or("run_tests: no tail expression")?;
+    let names: Vec<String> = counters.iter().map(|c| c.0.clone()).collect();
+    Counters(&names).visit_block_mut(&mut fl.body);
+    Counters(&names).visit_expr_mut(&mut tail);
+    // the iterated expression must not mention the counters
+    let iter = cx.v(&fl.expr)?;
+    let (item_ty, pat) = match &*fl.pat {
+        Pat::Tuple(t) if t.elems.len() == 2 => ("Nat × TestCase", cx.pat(&fl.pat)?),
+        Pat::Ident(_) => ("TestCase", cx.pat(&fl.pat)?),
+        other => {
+            return Err(format!(
+                "run_tests: unsupported loop pattern {}",
+                other.to_token_stream()
+            ));
+        }
+    };
+    let body = state_stmts(&cx, &fl.body.stmts, &names)?;
+    let tail_s = cx.m(&tail)?;
+
+    let mut out = String::new();
+    out.push_str("/-- the `let mut` counters of `run_tests` (`i32` by Rust's integer fallback) -/\nstructure run_tests_St where\n");
+    for (c, _) in &counters {
+        out.push_str(&format!("  {c} : I32\n"));
+    }
+    out.push_str("  deriving DecidableEq, Repr\n\n");
+    let init: Vec<String> = counters
+        .iter()
+        .map(|(c, k)| format!("{c} := i32lit {k}"))
+        .collect();
+    out.push_str(&format!(
+        "def run_tests_init : run_tests_St := {{ {} }}\n\n",
+        init.join(", ")
+    ));
+    out.push_str(&format!(
+        "/-- what `run_tests`' `for` iterates over, as a function of the collected tests -/\ndef run_tests_iter (tests : List TestCase) : List ({item_ty}) :=\n {iter}\n\n"
+    ));
+    out.push_str(&format!(
+        "/-- one iteration of `run_tests`' loop -/\ndef run_tests_step {{ε : Type}} (dbg : Bool) (ctx : Unit) (st__ : run_tests_St) (item__ : {item_ty}) : Run ε run_tests_St :=\n (do match item__ with\n | {pat} => {body})\n\n"
+    ));
+    out.push_str(&format!(
+        "/-- the final decision of `run_tests` -/\ndef run_tests_finish (dbg : Bool) (st__ : run_tests_St) : Res (RResult Unit Unit) :=\n {tail_s}\n\n"
+    ));
+    out.push_str(&format!(
+        "/-- `run_tests` (src/codegen/testing.rs) -/\ndef run_tests {{ε : Type}} (dbg : Bool) (module : Module) (ctx : Unit) : Run ε (RResult Unit Unit) := (do\n{}\n let st__ ← List.foldlM (run_tests_step dbg ctx) run_tests_init (run_tests_iter tests)\n run_tests_finish dbg st__)\n\n",
+        pre.join("\n")
+    ));
+    Ok(out)
+}
+
+// --------------------------------------------------------------------- CLI
+
+fn lean_ty(t: &syn::Type) -> R {
+    let s = t.to_token_stream().to_string().replace(' ', "");
+    Ok(match s.as_str() {
+        "PathBuf" => "TR.Path".into(),
+        "String" => "Name".into(),
+        other => return Err(format!("Command field type {other} not in the vocabulary")),
+    })
+}
+
+fn command_enum(cli: &syn::File) -> R {
+    struct F(Vec<syn::ItemEnum>);
+    impl<'ast> Visit<'ast> for F {
+        fn visit_item_enum(&mut self, e: &'ast syn::ItemEnum) {
+            if e.ident == "Command" {
+                self.0.push(e.clone());
+            }
+        }
+    }
+    let mut f = F(vec![]);
+    f.visit_file(cli);
+    if f.0.len() != 1 {
+        return Err(format!("enum Command: {} definitions", f.0.len()));
+    }
+    let mut out = String::from("/-- `enum Command` (src/cli.rs) -/\ninductive Command where\n");
+    for v in &f.0[0].variants {
+        out.push_str(&format!("  | {}", v.ident));
+        for fld in &v.fields {
+            let n = fld
+                .ident
+                .as_ref()
+                .ok_or("Command: tuple variant")?
+                .to_string();
+            out.push_str(&format!(" ({} : {})", crate::r2l::lean_ident(&n), lean_ty(&fld.ty)?));
+        }
+        out.push('\n');
+    }
+    out.push_str("  deriving DecidableEq, Repr\n\nstructure CliArgs where\n  command : Command\n\n");
+    Ok(out)
+}
+
+fn cli_cx() -> Cx {
+    let mut cx = base_cx();
+    for (m, f) in [
+        ("try_without_ctx", "W.try_without_ctx"),
+        ("parse", "W.parse"),
+        ("typecheck", "W.typecheck"),
+        ("lower_to_mir", "W.lower_to_mir"),
+        ("lower_to_lir", "W.lower_to_lir"),
+        ("codegen", "W.codegen"),
+        ("call", "W.call"),
+        ("print_documentation", "W.print_documentation"),
+        ("unwrap", "W.unwrap"),
+    ] {
+        cx.methods.insert(m.into(), Meth::Fallible(f.into()));
+    }
+    cx.methods
+        .insert("run_tests".into(), Meth::FallibleDbg("Package_run_tests".into()));
+    cx.methods
+        .insert("get_function".into(), Meth::Pure("Package.get_function".into()));
+    for (p, f) in [
+        ("FileTree::read", "W.FileTree_read"),
+        ("std::fs::read_to_string", "W.read_to_string"),
+        ("print_highlighted", "W.print_highlighted"),
+        ("try_", "Cli.try_"),
+        ("throw_", "Cli.throw_"),
+    ] {
+        cx.fallible_fns.insert(p.into(), (f.into(), false));
+    }
+    cx.fallible_fns
+        .insert("cli_inner".into(), ("cli_inner_result".into(), true));
+    cx
+}
+
+fn cli_fns(cli: &syn::File) -> R {
+    let mut out = String::new();
+    let cx = cli_cx();
+    // cli_inner
+    let mut f = find::func(cli, "cli_inner", None)?;
+    rewrite(&mut f.block)?;
+    let mut rp = super::scalar::ExprReplacer::new(&[("Cli::parse()", "cli_args")]);
+    rp.visit_block_mut(&mut f.block);
+    rp.require("Cli::parse()", 1)?;
+    // the final `Ok(())` is the unit of the CLI monad
+    match f.block.stmts.last_mut() {
+        Some(Stmt::Expr(e, None)) if e.to_token_stream().to_string().replace(' ', "") == "Ok(())" => {
+            *e = syn::parse_str("()").unwrap();
+        }
+        _ => return Err("cli_inner: the function does not end in `Ok(())`".into()),
+    }
+    let body = cx.block(&f.block.stmts)?;
+    out.push_str(&format!(
+        "/-- `cli_inner` (src/cli.rs); `Result<(), RotoReport>` is the error channel of `Cli` -/\ndef cli_inner (dbg : Bool) (W : World) (cli_args : CliArgs) (rt : Runtime) : Cli Unit :=\n {body}\n\n"
+    ));
+    out.push_str("def cli_inner_result (dbg : Bool) (W : World) (cli_args : CliArgs) (rt : Runtime) : Cli (RResult Unit CliErr) :=\n Run.reify (cli_inner dbg W cli_args rt)\n\n");
+    // cli
+    let mut f = find::func(cli, "cli", None)?;
+    rewrite(&mut f.block)?;
+    let mut rp = super::scalar::ExprReplacer::new(&[("cli_inner(rt)", "cli_inner(W, cli_args, rt)")]);
+    rp.visit_block_mut(&mut f.block);
+    rp.require("cli_inner(rt)", 1)?;
+    let body = cx.block(&f.block.stmts)?;
+    out.push_str(&format!(
+        "/-- `cli` (src/cli.rs) -/\ndef cli (dbg : Bool) (W : World) (cli_args : CliArgs) (rt : Runtime) : Cli ExitCode :=\n {body}\n\n"
+    ));
+    Ok(out)
+}
+
+fn package_run_tests(pipeline: &syn::File) -> R {
+    let mut f = find::func(pipeline, "run_tests", Some("Package<NoCtx>"))?;
+    rewrite(&mut f.block)?;
+    let cx = base_cx();
+    let body = cx.block(&f.block.stmts)?;
+    Ok(format!(
+        "/-- `Package<NoCtx>::run_tests` (src/pipeline.rs) -/\ndef Package_run_tests {{ε : Type}} (dbg : Bool) (self : Package) : Run ε (RResult Unit Unit) :=\n {body}\n\n"
+    ))
+}
+
+// ------------------------------------------------- how a test becomes a function
+
+fn chars_lit(s: &str) -> String {
+    let cs: Vec<String> = s.chars().map(|c| format!("{c:?}")).collect();
+    format!("([{}] : Name)", cs.join(", "))
+}
+
+/// The single `format!("<prefix>{…}")` in `f`: its prefix.
+fn format_prefix(f: &find::FnBody, what: &str) -> R {
+    struct M(Vec<syn::Macro>);
+    impl<'ast> Visit<'ast> for M {
+        fn visit_macro(&mut self, m: &'ast syn::Macro) {
+            if m.path.is_ident("format") {
+                self.0.push(m.clone());
+            }
+        }
+    }
+    let mut m = M(vec![]);
+    m.visit_block(&f.block);
+    if m.0.len() != 1 {
+        return Err(format!("{what}: expected one format!, found {}", m.0.len()));
+    }
+    let first = m.0[0]
+        .tokens
+        .clone()
+        .into_iter()
+        .next()
+        .ok_or(format!("{what}: empty format!"))?;
+    let lit: syn::LitStr = syn::parse2(first.into_token_stream())
+        .map_err(|_| format!("{what}: format! does not start with a string literal"))?;
+    let s = lit.value();
+    let open = s.find('{').ok_or(format!("{what}: no placeholder"))?;
+    let close = s.find('}').ok_or(format!("{what}: no placeholder"))?;
+    if close + 1 != s.len() || s[open + 1..].contains('{') {
+        return Err(format!("{what}: format string `{s}` is not `<prefix>{{name}}`"));
+    }
+    Ok(s[..open].to_string())
+}
+
+fn sig_ty(tokens: &str) -> &'static str {
+    match tokens {
+        "Type::verdict(Type::unit(),Type::unit())" => "Ty.verdictUnitUnit",
+        "Type::unit()" => "Ty.unit",
+        _ => "(Ty.other 0)",
+    }
+}
+
+fn test_items(repo: &Path) -> R {
+    let tc = find::parse(repo, "src/typechecker/function.rs")?;
+    let mir = find::parse(repo, "src/mir/lower.rs")?;
+    let mut out = String::new();
+    // type checker
+    let f = find::func(&tc, "test", None)?;
+    let p = format_prefix(&f, "typechecker test")?;
+    out.push_str(&format!(
+        "/-- the name under which the type checker declares `test <ident>` (src/typechecker/function.rs) -/\ndef test_fn_name_typechecker (ident : Name) : Name := {} ++ ident\n\n",
+        chars_lit(&p)
+    ));
+    struct S(Vec<syn::ExprStruct>);
+    impl<'ast> Visit<'ast> for S {
+        fn visit_expr_struct(&mut self, s: &'ast syn::ExprStruct) {
+            if s.path.is_ident("Signature") {
+                self.0.push(s.clone());
+            }
+        }
+    }
+    let mut s = S(vec![]);
+    s.visit_block(&f.block);
+    if s.0.len() != 1 {
+        return Err(format!("typechecker test: {} Signature literals", s.0.len()));
+    }
+    let mut params = None;
+    let mut ret = None;
+    for fld in &s.0[0].fields {
+        let n = fld.member.to_token_stream().to_string();
+        let v = fld.expr.to_token_stream().to_string().replace(' ', "");
+        match n.as_str() {
+            "parameter_types" => params = Some(v),
+            "return_type" => ret = Some(v),
+            _ => {}
+        }
+    }
+    let params = params.ok_or("typechecker test: no parameter_types")?;
+    let ret = ret.ok_or("typechecker test: no return_type")?;
+    if params != "Vec::new()" {
+        return Err(format!("typechecker test: parameter_types = {params} is not `Vec::new()`"));
+    }
+    out.push_str(&format!(
+        "/-- the signature the type checker gives a test -/\ndef test_sig_typechecker : Sig := ⟨[], {}⟩\n\n",
+        sig_ty(&ret)
+    ));
+    // MIR lowering
+    let f = find::func(&mir, "test", Some("Lowerer"))?;
+    let p = format_prefix(&f, "mir test")?;
+    out.push_str(&format!(
+        "/-- the name of the MIR item of `test <ident>` (src/mir/lower.rs) -/\ndef test_fn_name_mir (ident : Name) : Name := {} ++ ident\n\n",
+        chars_lit(&p)
+    ));
+    let mut ret = None;
+    let mut params = None;
+    for st in &f.block.stmts {
+        if let Stmt::Local(l) = st {
+            if let (Pat::Ident(pi), Some(init)) = (&l.pat, &l.init) {
+                let v = init.expr.to_token_stream().to_string().replace(' ', "");
+                if pi.ident == "return_type" {
+                    ret = Some(v);
+                } else if pi.ident == "params" {
+                    params = Some(v);
+                }
+            }
+        }
+    }
+    let ret = ret.ok_or("mir test: no `let return_type`")?;
+    let params = params.ok_or("mir test: no `let params`")?;
+    if params != "ast::Params(Vec::new())" {
+        return Err(format!("mir test: params = {params} is not `ast::Params(Vec::new())`"));
+    }
+    out.push_str(&format!(
+        "/-- the signature the MIR lowerer gives a test -/\ndef test_sig_mir : Sig := ⟨[], {}⟩\n\n",
+        sig_ty(&ret)
+    ));
+    Ok(out)
+}
+
+pub fn testrunner(repo: &Path) -> R {
+    let testing = find::parse(repo, "src/codegen/testing.rs")?;
+    let pipeline = find::parse(repo, "src/pipeline.rs")?;
+    let cli = find::parse(repo, "src/cli.rs")?;
+    let mut out = String::from(
+        "/- GENERATED by /verif/extract (targets/c19.rs) from src/codegen/testing.rs, src/pipeline.rs, src/cli.rs, src/typechecker/function.rs, src/mir/lower.rs — do not edit. -/\nimport RotoV.Model.TestRunner\nset_option linter.unusedVariables false\nnamespace RotoV.Gen.TestRunner\nopen RotoV RotoV.TR\n\n",
+    );
+    out.push_str(&test_items(repo)?);
+    out.push_str(&testcase_run(&testing)?);
+    out.push_str(&get_tests(&testing)?);
+    out.push_str(&run_tests(&testing)?);
+    out.push_str(&package_run_tests(&pipeline)?);
+    out.push_str(&command_enum(&cli)?);
+    out.push_str(&cli_fns(&cli)?);
+    out.push_str("\nend RotoV.Gen.TestRunner\n");
+    Ok(out)
+}
